@@ -425,9 +425,22 @@ pub fn access_scenarios(seed: u64) -> u64 {
 /// W1 resumes, its hand-over fails and the replacement - by now the last reference - is destroyed
 /// inside W1's debt walk. With `plan`, that destructor panics.
 pub fn directed_destructor_in_debt_walk(plan: Option<(u8, u64)>, exec_no: u64) -> PanicOut {
-    use arc_swap::strategy::test_strategies::FillFastSlots;
+    directed_destructor_in_debt_walk_s::<arc_swap::strategy::test_strategies::FillFastSlots>(plan, exec_no, 0)
+}
+
+/// The same scenario on the default strategy: the reader first takes `hold` = 8 guards (fast slots
+/// full, so its next load goes through the helping slot); those guards are unpaid debts on the value
+/// the first writer removes, in the very node whose help() call runs the panicking destructor
+/// (third-round seeds C18p / C18q: what the unwinding releases must not be owed to them).
+pub fn directed_destructor_in_debt_walk_default(plan: Option<(u8, u64)>, exec_no: u64) -> PanicOut {
+    directed_destructor_in_debt_walk_s::<arc_swap::DefaultStrategy>(plan, exec_no, 8)
+}
+
+fn directed_destructor_in_debt_walk_s<S: StratExt<V>>(plan: Option<(u8, u64)>, exec_no: u64, hold: usize) -> PanicOut
+where
+    arc_swap::Guard<V, S>: Send,
+{
     use arc_swap::verif::Site;
-    type S = FillFastSlots;
     let p = crate::wl_core::profile("c01");
     let nt = 3;
     let viol_before = crate::viol::count();
@@ -461,7 +474,7 @@ pub fn directed_destructor_in_debt_walk(plan: Option<(u8, u64)>, exec_no: u64) -
         (1, hs::OP_GAP),                   // W1: hand-over fails, replacement dropped inside the walk
         (0, hs::OP_GAP),
     ]);
-    let desc = json!({"workload": "panic/directed", "scenario": "rejected replacement destroyed inside the debt walk", "strategy": "fallback-only", "exec_no": exec_no,
+    let desc = json!({"workload": "panic/directed", "scenario": "rejected replacement destroyed inside the debt walk", "strategy": <S as StratExt<V>>::NAME, "reader_holds_guards": hold, "exec_no": exec_no,
         "fault_plan": plan.map(|(k, n)| format!("{} #{}", fault::KIND_NAMES[k as usize], n)).unwrap_or_else(|| "none (counting run)".into())});
     runner::set_current(desc.clone());
     runner::HOLD_VIOLATIONS.store(plan.is_some(), SeqCst);
@@ -492,8 +505,14 @@ pub fn directed_destructor_in_debt_walk(plan: Option<(u8, u64)>, exec_no: u64) -
                 caches: Vec::new(),
                 pending: RefCell::new(None),
             };
-            let ops: &[W] = if t == 0 { &[W::LoadDrop, W::LoadDrop] } else { &[W::Swap, W::DropOwned, W::DropOwned, W::LoadDrop] };
-            for op in ops {
+            let mut opv: Vec<W> = Vec::new();
+            if t == 0 {
+                opv.extend(std::iter::repeat(W::Load).take(hold));
+                opv.extend([W::LoadDrop, W::LoadDrop]);
+            } else {
+                opv.extend([W::Swap, W::DropOwned, W::DropOwned, W::LoadDrop]);
+            }
+            for op in opv.iter() {
                 let r = std::panic::catch_unwind(std::panic::AssertUnwindSafe(|| w.do_op(*op)));
                 if let Err(e) = r {
                     if e.downcast_ref::<runner::InjectedPanic>().is_none() {
